@@ -489,6 +489,8 @@ class VQueue:
 
 
 CURRENT = {'sched': None}
+EXTRA_LOCKS = []
+EXTRA_SETS = []
 
 
 def bind_asyncio_seams(aiu, sched):
@@ -503,6 +505,12 @@ def bind_asyncio_seams(aiu, sched):
     aiu._CROSS_LOOP_POOL = VExecutor(32, sched=sched)
     aiu._LOOP_LOCKS = {}
     aiu._LOOP_LOCKS_CREATE_LOCK = TxLock(sched)
+    for name in EXTRA_LOCKS:          # further module-level threading.Lock objects of the tree under test
+        if hasattr(aiu, name):
+            setattr(aiu, name, TxLock(sched))
+    for name in EXTRA_SETS:
+        if hasattr(aiu, name):
+            setattr(aiu, name, set())
     _vloop.set_world(sched)
 
 
@@ -511,8 +519,15 @@ _ORIG = {}
 
 def save_asyncio_seams(aiu):
     if not _ORIG:
-        for k in ('Lock', 'ThreadPoolExecutor', 'queue', 'sleep', '_CROSS_LOOP_POOL', '_LOOP_LOCKS',
-                  '_LOOP_LOCKS_CREATE_LOCK'):
+        import threading
+        lock_type = type(threading.Lock())
+        for k, v in list(vars(aiu).items()):      # any other module-level lock / registry set: per-execution shims
+            if isinstance(v, lock_type) and k != '_LOOP_LOCKS_CREATE_LOCK':
+                EXTRA_LOCKS.append(k)
+            elif isinstance(v, set) and k.startswith('_'):
+                EXTRA_SETS.append(k)
+        for k in ['Lock', 'ThreadPoolExecutor', 'queue', 'sleep', '_CROSS_LOOP_POOL', '_LOOP_LOCKS',
+                  '_LOOP_LOCKS_CREATE_LOCK'] + EXTRA_LOCKS + EXTRA_SETS:
             _ORIG[k] = getattr(aiu, k)
 
 
